@@ -173,4 +173,25 @@ CHECKS = {
         quick=dict(stages=[st(2000, run="TestRoundTripHistories|TestSelectionHelpersExhaustive|TestStandInSelfCheck", timeout=900), st(300, run="TestConcurrentCallers", timeout=900)]),
         thorough=dict(stages=[st(20000, shards=12, run="TestRoundTripHistories|TestSelectionHelpersExhaustive|TestStandInSelfCheck", timeout=3000), st(1500, shards=4, race=True, run="TestConcurrentCallers", timeout=3000)]),
     ),
+    "C07": dict(
+        pkg="owsim", level="exploration",
+        overlay=dict(map_main={"cmd/ow-sim": "owsim"}),
+        rule="rapid-generated layered model graphs over the HDF5 stand-in: 1-4 model types from a pool of 20 models whose kernels accept any non-negative input, 1-5 generations, 0-4 nodes per (model, generation) including empty batches and models absent from generation 0, links only forward in generation order (several links into one input, fan-out), models with and without a stored inputs dataset, T=1..20, flags -overwrite (with a stale output file), -outputs-for/-no-outputs-for/-inputs-for/-no-inputs-for subsets, separate parameter / initial-state / time-series / final-state files, no output file, and delays injected at the stand-in's read / write calls; the real run_simulation is called in-process (sources mapped by -overlay); "
+             "oracle: an independent sequential interpreter (generations in order; node input = stored input or zeros + sum of linked source outputs; each node run alone through the catalogue) compared bit-for-bit with /MODELS/<m>/{outputs,states,inputs} row by row, datasets present exactly when selected, and from the stand-in's call log every (model, generation, dataset) block written exactly once at its batch offset before run_simulation returns. "
+             "Non-trivial = >= 2 generations and a link whose destination has a stored input or another incoming link; distinct = distinct graph",
+        assumptions=["HDF5 stand-in (see C08) is the trusted base", "not covered: -outputs model=file (re-executes the binary as a -writer sub-process) and the protobuf writer", "the /LINKS dataset always exists (possibly with zero rows)"],
+        quick=dict(stages=[st(25, shards=8, run="TestSimulationEqualsSequentialReference", timeout=900, env={"VERIF_PROPERTY": "C07"})]),
+        thorough=dict(stages=[st(400, shards=16, run="TestSimulationEqualsSequentialReference", timeout=3000, env={"VERIF_PROPERTY": "C07"})]),
+    ),
+    "C05": dict(
+        pkg="c05", level="exploration",
+        rule="built with the Go race detector (halt on first report): (1) rapid-generated vectorised-Run cases as in C04 with 2..24 cells (thorough 48) over the whole catalogue, GOMAXPROCS drawn from {1,2,3,4,8,16}, each case run 3 times and every repetition compared bit-for-bit with the sequential cell-by-cell reference; "
+             "(2) rapid-generated ow-sim graphs as in C07, 2-3 repetitions each, GOMAXPROCS drawn, delays injected separately at writer-side (mutating) and main-loop (read) calls of the HDF5 stand-in, every repetition compared with the sequential graph interpreter. "
+             "Non-trivial = >= 2 cells (resp. >= 2 model types and >= 2 non-empty generations with an output file); distinct = distinct case",
+        assumptions=["the race detector reports unsynchronised conflicting accesses on the executions that happened; this is exploration of schedules (GOMAXPROCS, injected delays, repetition), not enumeration"],
+        quick=dict(stages=[st(200, race=True, timeout=900),
+                           st(8, shards=6, race=True, pkg="owsim", overlay=dict(map_main={"cmd/ow-sim": "owsim"}), run="TestGraphExecutionRaceFree", timeout=900, env={"VERIF_PROPERTY": "C05"})]),
+        thorough=dict(stages=[st(1500, shards=10, race=True, timeout=3000),
+                              st(150, shards=6, race=True, pkg="owsim", overlay=dict(map_main={"cmd/ow-sim": "owsim"}), run="TestGraphExecutionRaceFree", timeout=3000, env={"VERIF_PROPERTY": "C05"})]),
+    ),
 }
